@@ -13,6 +13,8 @@
 (*             grammar | version | token | scope | cycle | missP | missS | fmt           *)
 (*   quiet, stub, ignoreP, ignoreS : the flags                                           *)
 (*   outpre  : state of the -o path: absent | file | missingdir | isdir | underfile      *)
+(*   free    : TRUE when nothing is known about the input (arbitrary bytes, C12): every   *)
+(*             step may then succeed or fail, but the protocol and the contract hold      *)
 EXTENDS Naturals, Sequences, FiniteSets, TLC
 
 CONSTANT MaxErr            \* bound on the number of errors one step may report
@@ -76,13 +78,13 @@ Fail(name, n) ==
 
 DefaultInput == pc = "Default input" /\ Ok("Default input", "Read config")
 
-ReadConfig(n) ==
-  /\ pc = "Read config"
-  /\ IF ReadBad(sc) THEN Fail("Read config", n) ELSE (n = 1 /\ Ok("Read config", "Compile"))
+Either(bad, name, n, nextpc) ==
+  IF sc.free THEN (Fail(name, n) \/ (n = 1 /\ Ok(name, nextpc)))
+  ELSE IF bad THEN Fail(name, n) ELSE (n = 1 /\ Ok(name, nextpc))
 
-Compile(n) ==
-  /\ pc = "Compile"
-  /\ IF CompileBad(sc) THEN Fail("Compile", n) ELSE (n = 1 /\ Ok("Compile", "rule1"))
+ReadConfig(n) == pc = "Read config" /\ Either(ReadBad(sc), "Read config", n, "Compile")
+
+Compile(n) == pc = "Compile" /\ Either(CompileBad(sc), "Compile", n, "rule1")
 
 (* The four validation rules: each runs whatever the others found.                        *)
 RuleIdx == CASE pc = "rule1" -> 1 [] pc = "rule2" -> 2 [] pc = "rule3" -> 3 [] pc = "rule4" -> 4 [] OTHER -> 0
@@ -90,7 +92,8 @@ NextRulePc(i) == IF i = 4 THEN "rules_end" ELSE <<"rule2", "rule3", "rule4">>[i]
 
 Rule(n) ==
   /\ RuleIdx # 0
-  /\ LET r == Rules[RuleIdx]  res == RuleResult(sc, r) IN
+  /\ LET r == Rules[RuleIdx] IN
+     \E res \in (IF sc.free THEN (IF RuleResult(sc, r) = "ignored" THEN {"ignored"} ELSE {"ok", "fail"}) ELSE {RuleResult(sc, r)}) :
        /\ IF res = "fail" THEN n \in 1..MaxErr ELSE n = 0
        /\ subs' = Append(subs, StepRec(r, 1, res, n))
        /\ pc' = NextRulePc(RuleIdx)
@@ -103,15 +106,17 @@ ValidateEnd ==
   /\ IF SubErrs > 0 THEN Fail("Validate output", SubErrs) ELSE Ok("Validate output", "Generate code")
 
 (* Code generation: render + format, then one write.                                      *)
+GenOk ==
+  /\ steps' = Append(steps, StepRec("Generate code", 0, "ok", 0))
+  /\ out' = "new"
+  /\ exit' = 0
+  /\ pc' = "done"
+  /\ UNCHANGED <<sc, subs, nerr>>
+
 Generate(n) ==
   /\ pc = "Generate code"
-  /\ IF GenerateBad(sc) THEN Fail("Generate code", n)
-     ELSE /\ n = 1
-          /\ steps' = Append(steps, StepRec("Generate code", 0, "ok", 0))
-          /\ out' = "new"
-          /\ exit' = 0
-          /\ pc' = "done"
-          /\ UNCHANGED <<sc, subs, nerr>>
+  /\ IF sc.free THEN (Fail("Generate code", n) \/ (n = 1 /\ GenOk))
+     ELSE IF GenerateBad(sc) THEN Fail("Generate code", n) ELSE (n = 1 /\ GenOk)
 
 Step == DefaultInput \/ ValidateEnd \/ \E n \in 0..MaxErr : ReadConfig(n) \/ Compile(n) \/ Rule(n) \/ Generate(n)
 
